@@ -98,3 +98,26 @@ def switch_on_call_result(body, cfg, bb):
             continue
         return None
     return None
+
+
+def through_capture(prog, b, r, path):
+    """A place rooted in the environment of a closure (`(*_1).k ...`) is the k-th operand of the closure construction in the
+    parent body: returns (parent body, root local there, parent path + rest of the path), or (b, r, path) unchanged."""
+    if b.kind != 'closure' or r != 1 or not b.parent or b.parent not in prog.bodies:
+        return b, r, path
+    fs = [i for i, e in enumerate(path) if e[0] in ('f', 't')]
+    if not fs:
+        return b, r, path
+    first = path[fs[0]]
+    k = first[3] if first[0] == 'f' else first[1]
+    pb = prog.bodies[b.parent]
+    for bl in pb.blocks:
+        if bl.cleanup:
+            continue
+        for st in bl.stmts:
+            if st[0] == 'a' and st[2][0] == 'agg' and st[2][1][0] == 'closure' and st[2][1][1] == b.id and k < len(st[2][2]):
+                o = st[2][2][k]
+                if o[0] in ('c', 'm'):
+                    r2, p2 = operand_root(pb, o)
+                    return pb, r2, tuple(p2) + tuple(path[fs[0] + 1:])
+    return b, r, path
